@@ -188,6 +188,18 @@ func (configgen *ConfigGeneratorImpl) deltaFromServices(key model.ConfigKey, pro
 				deletedClusters = append(deletedClusters, cluster)
 			}
 		}
+		// servicePortClusters holds a single cluster per port, so when a port has both a plain and a
+		// subset cluster one of them was not considered above: check every cluster of the service.
+		for cluster := range serviceClusters[service.Hostname.String()] {
+			_, _, _, port := model.ParseSubsetKey(cluster)
+			if _, exists := service.Ports.GetByPort(port); !exists {
+				deletedClusters = append(deletedClusters, cluster)
+			}
+		}
+		// The update may also change which destination rule applies to the service (it is looked up by
+		// the service's namespace), so all of its subset clusters are candidates for removal. The subset
+		// clusters that are still needed are rebuilt, and rebuilt clusters are dropped from the deleted list.
+		deletedClusters = append(deletedClusters, subsetClusters[service.Hostname.String()].UnsortedList()...)
 	}
 	return services, deletedClusters
 }
